@@ -50,6 +50,10 @@ class SwapMonitor:
         self.forbidden_checked = 0
         self.reach = Counter()
         self.foreign = []
+        self.tap = None
+        self.force_zero_draw_rate = 0.0
+        import random as _r
+        self.coin = _r.Random(12345)
         # shadow state
         self.attr = {}
         self.motif = defaultdict(set)
@@ -263,9 +267,19 @@ class SwapMonitor:
                     mon.reach["numerator_missing_key"] += 1
                 if zero:
                     mon.reach["numerator_zero_weight"] += 1
+                if (miss or zero) and mon.tap is not None and mon.force_zero_draw_rate and mon.coin.random() < mon.force_zero_draw_rate:
+                    # rare RNG outcome, forced: if this proposal's fate is put to a uniform draw at all, the draw is exactly 0.0
+                    mon.tap.pending_random = 0.0
+                    mon.reach["zero_draws_armed_on_forbidden_proposals"] += 1
             except Exception:
                 pass
-            r = orig(obj, G, e0s, e1s, u0, v0)
+            try:
+                r = orig(obj, G, e0s, e1s, u0, v0)
+            finally:
+                if mon.tap is not None:
+                    if mon.tap.pending_random is None and mon.reach.get("zero_draws_armed_on_forbidden_proposals"):
+                        pass
+                    mon.tap.pending_random = None
             if r:
                 mon.last_accept_at = mon.props
                 mon.pending = (u0, v0, [tuple(e) for e in e0s], [tuple(e) for e in e1s], old)
